@@ -31,7 +31,18 @@ func b64Replay(raw json.RawMessage) hx.Result {
 	if err := json.Unmarshal(raw, &r); err != nil {
 		fatalf("bad record: %v", err)
 	}
-	in := strings.Join(r.Sp, "")
+	var sb strings.Builder
+	for _, e := range r.Sp {
+		switch e {
+		case "nl":
+			sb.WriteByte('\n')
+		case "sp":
+			sb.WriteByte(' ')
+		default:
+			sb.WriteString(e)
+		}
+	}
+	in := sb.String()
 	std := strings.Join(r.Std, "")
 	want := make([]byte, len(r.Bytes))
 	for i, v := range r.Bytes {
@@ -61,6 +72,34 @@ func b64Replay(raw json.RawMessage) hx.Result {
 	out, merr := json.Marshal(d)
 	if merr != nil || string(out) != `"`+std+`"` {
 		return fail("json-reencode", fmt.Sprintf("MarshalJSON gives %s, err=%v", out, merr))
+	}
+	// the other ways in: database scan (text column, JSON column), YAML, sender IDs; and the other ways out
+	var sc spec.Base64Bytes
+	if err := sc.Scan(in); err != nil || !bytes.Equal(sc, want) {
+		return fail("scan-string", fmt.Sprintf("Scan(string) gives %v, err=%v", []byte(sc), err))
+	}
+	var sj spec.Base64Bytes
+	if err := sj.Scan(spec.RawJSON(quoted)); err != nil || !bytes.Equal(sj, want) {
+		return fail("scan-json", fmt.Sprintf("Scan(RawJSON) gives %v, err=%v", []byte(sj), err))
+	}
+	var sy spec.Base64Bytes
+	if err := sy.UnmarshalYAML(func(v interface{}) error { *(v.(*string)) = in; return nil }); err != nil || !bytes.Equal(sy, want) {
+		return fail("yaml-decode", fmt.Sprintf("UnmarshalYAML gives %v, err=%v", []byte(sy), err))
+	}
+	if raw, err := spec.SenderID(in).RawBytes(); len(in) > 0 && (err != nil || !bytes.Equal(raw, want)) {
+		return fail("senderid-rawbytes", fmt.Sprintf("SenderID.RawBytes gives %v, err=%v", []byte(raw), err))
+	}
+	if val, err := d.Value(); err != nil || val != std {
+		return fail("value", fmt.Sprintf("Value gives %v, err=%v", val, err))
+	}
+	if y, err := d.MarshalYAML(); err != nil || y != std {
+		return fail("yaml-reencode", fmt.Sprintf("MarshalYAML gives %v, err=%v", y, err))
+	}
+	// a receiver that already holds another value, or saw a failed decode, gives the same result
+	reused := spec.Base64Bytes{1, 2, 3, 4, 5, 6, 7}
+	_ = reused.Decode("!!")
+	if err := reused.Decode(in); err != nil || !bytes.Equal(reused, want) {
+		return fail("reused-receiver", fmt.Sprintf("Decode into a used receiver gives %v, err=%v", []byte(reused), err))
 	}
 	// re-encoding decodes to the same value again
 	var again spec.Base64Bytes
